@@ -326,7 +326,8 @@ func (a *Announce) AnnounceName(name string) bool {
 func (a *Announce) GetStatus(meta types.NamespacedName) []IPAdvertisement {
 	a.RLock()
 	defer a.RUnlock()
-	return a.ips[meta.String()]
+	// SetBalancer overrides the elements in place: hand out a copy, the caller reads it without the lock.
+	return append([]IPAdvertisement(nil), a.ips[meta.String()]...)
 }
 
 // GetInterfaces returns current interfaces list.
